@@ -59,6 +59,8 @@ Explain(full) ==
             /\ InsertCollideS(Ev.d, Ev.p, Ev.b, Ev.k, Ev.c) /\ uid' = Ev.post.uid
             /\ UPart(full, InsertCollideU(Ev.d, Ev.p, Ev.b, Ev.k))
             /\ Ev.outcome = "panic" /\ PostMatches
+      [] Ev.op = "reserve" ->
+            /\ ReserveS(Ev.d) /\ Ev.outcome = "ok" /\ PostMatches
       [] Ev.op = "bad" ->
             /\ BadCall(Ev.kind, Ev.d, Ev.r) /\ Ev.outcome = "panic" /\ PostMatches
       [] Ev.op = "destroy" ->
